@@ -448,6 +448,58 @@ def minimise(workload, trace, key, budget_s=240.0, hint_step=None):
 
 
 # --------------------------------------------------------------------------
+# a history in an interpreter that was started in another zone
+
+HOST_ZONES_WEST = [-19800, 12600, -45900, 1800, -50400, 39600, -3600, -60,
+                   34200, -20700]
+
+
+def posix_tz(west):
+    """POSIX TZ string of a fixed zone `west` seconds west of UTC (the sign
+    in TZ is that of `time.timezone`: XST-5:30 is UTC+05:30)."""
+    a = abs(west)
+    return "XST%s%d:%02d" % ("-" if west < 0 else "+", a // 3600,
+                             (a % 3600) // 60)
+
+
+def run_in_host_zone(prop, trace):
+    """workload.execute(trace) in a SPAWNED interpreter whose TZ is
+    trace['host_tz']: the library is imported -- and whatever it sets up at
+    import time is set up -- under that zone, with the real `time` module."""
+    import subprocess
+    import tempfile
+    fd, path = tempfile.mkstemp(prefix="verif-host-", suffix=".json")
+    try:
+        with os.fdopen(fd, "w") as out:
+            json.dump(trace, out)
+        proc = subprocess.run(
+            [sys.executable, os.path.join(VERIF_DIR, "check.py"), "_host",
+             prop, path], capture_output=True, text=True, timeout=600,
+            env=dict(os.environ, VERIF_REPO=REPO, TZ=trace["host_tz"],
+                     PYTHONHASHSEED="0"))
+    finally:
+        os.remove(path)
+    line = [ln for ln in proc.stdout.splitlines() if ln.startswith("HOST ")]
+    if not line:
+        raise HarnessError(
+            "spawned host-zone run failed: " + proc.stderr[-400:])
+    return json.loads(line[0][5:])
+
+
+def host_main(workload, path):
+    """Entry of the spawned interpreter (check.py _host <PROP> <file>)."""
+    import time
+    with open(path) as inp:
+        trace = json.load(inp)
+    west = trace["zones"][0][0]
+    if time.timezone != west:
+        raise HarnessError("host zone not in force: %r != %r" % (
+            time.timezone, west))
+    print("HOST " + json.dumps(workload.execute(trace), default=str))
+    return 0
+
+
+# --------------------------------------------------------------------------
 # replay files, known findings, evidence
 
 def write_replay(prop, seed, trace, violation):
